@@ -40,7 +40,10 @@ const TOps* tops() {
 // writes the object at x in all four writer forms and reads it back in all reader forms; ref = reference bytes
 bool tmpl_run(vf::Run& r, const char* tname, const TOps* t, const void* x, const uint8_t* ref, const std::function<bool(const void*)>& same_value, const std::function<std::string()>& vd) {
   const size_t w = t->w;
-  auto key = [&](const char* op, const char* kind) { return std::string(op) + "<" + tname + ">:" + kind; };
+  // keys name the template and the family of T (le_/be_/re_ wrapper, native scalar, struct), not each type: the
+  // templates are one piece of code; the type is in the description
+  const std::string family = !strncmp(tname, "le_", 3) ? "le_T" : !strncmp(tname, "be_", 3) ? "be_T" : !strncmp(tname, "re_", 3) ? "re_T" : (tname[0] == 'S' || strchr(tname, '[')) ? "struct" : "native";
+  auto key = [&](const char* op, const char* kind) { return std::string(op) + "<" + family + ">:" + kind; };
   try {
     // StringWriter: append after one byte, positional write 2 past the end, straddling the end, at 0
     StringWriter sw;
@@ -177,7 +180,7 @@ std::vector<uint64_t> tmpl_values(int w, bool is_float) {
 
 }  // namespace
 
-VF_SECTION(tmpl, 8, 8, 60) {
+VF_SECTION(tmpl, 8, 8, 180) {
   auto v2 = tmpl_values(2, false), v4 = tmpl_values(4, false), v8 = tmpl_values(8, false), f4 = tmpl_values(4, true), f8 = tmpl_values(8, true);
 #define C01_W3(U, S, W, VALS)                                                       \
   scalar_sweep<le_##U, U>(r, "le_" #U, W, LE, 'u', VALS);                           \
